@@ -130,15 +130,15 @@ Qed.
 Definition kw_nonempty (v : gval) : bool :=
   match strings_of v with Some ks => forallb nonempty_t ks | None => true end.
 
-Lemma substring_nil_r k : k <> [] -> substring k [] = false.
-Proof. destruct k; [contradiction|reflexivity]. Qed.
+Lemma substring_nil_r k : k <> [] -> kw_found k [] = false.
+Proof. exact (AcProof.kw_found_nil_r k). Qed.
 
 (* Spec.hit on keywords = the model's rule, when no keyword is empty *)
 Lemma hit_keywords ks t : forallb nonempty_t ks = true ->
-  Spec.hit (EKeywords ks) (QText t) = nonempty_t t && existsb (fun w => substring w t) ks.
+  Spec.hit (EKeywords ks) (QText t) = nonempty_t t && existsb (fun w => kw_found w t) ks.
 Proof.
   intros Hne. cbn [Spec.hit].
-  transitivity (existsb (fun w => substring w t) ks).
+  transitivity (existsb (fun w => kw_found w t) ks).
   - apply existsb_ext_in. intros k Hk. rewrite forallb_forall in Hne. specialize (Hne k Hk). destruct k; [discriminate|reflexivity].
   - destruct t as [|c t']; cbn [nonempty_t andb]; [|reflexivity].
     rewrite <- (existsb_false ks). apply existsb_ext_in. intros k Hk. rewrite forallb_forall in Hne. specialize (Hne k Hk).
